@@ -75,7 +75,7 @@ Definition structure_ok (p : problem) (h : handed) (o : obs_handed) : bool :=
   list_eqb q_eqb (h_x0 h) (o_x0 o) &&
   option_eqb bounds_eqb (h_bounds h) (o_bounds o) &&
   (h_de h || Bool.eqb (h_jac h) (o_jac o)) &&
-  list_eqb (fun (r : row) (e : bool * bool) => Bool.eqb (r_eq r) (fst e) && Bool.eqb (h_row_jac h) (snd e))
+  forallb2 (fun (r : row) (e : bool * bool) => Bool.eqb (r_eq r) (fst e) && Bool.eqb (h_row_jac h) (snd e))
            (h_rows h) (o_cons o) &&
   (if h_de h then option_eqb lincons_eqb (h_lin h) (o_lin o) && option_eqb (list_eqb pair_eqb) (h_nl h) (o_nl o)
    else is_none (o_lin o) && is_none (o_nl o)) &&
